@@ -73,6 +73,18 @@ func module(name, kind string, imps []string) string {
 		fmt.Fprintf(&sb, "fn %s() -> i32 {\n    let f := fn(y: i32) -> i32 { return y + %d; };\n    let g := fn(y: i32) -> i32 { return y * %d; };\n    return f(1) + g(2)%s;\n}\n", fn, k, k, calls)
 	case "anon":
 		fmt.Fprintf(&sb, "type E%s enum { A, B };\ntype I%s interface { M() -> i32 };\nfn %s() -> i32 {\n    let p: struct { .X: i32, .Y: i32 } = { .X = %d, .Y = 2 };\n    return p.X%s;\n}\n", name, name, fn, k, calls)
+	case "cap3":
+		// a closure capturing three locals (and a nested one capturing two of them): the order of
+		// the captured variables fixes the layout of the environment
+		fmt.Fprintf(&sb, "fn %s() -> i32 {\n    let ca: i32 = %d;\n    let cb: i32 = 2;\n    let cc: i32 = 3;\n    let f := fn(y: i32) -> i32 {\n        let g := fn(z: i32) -> i32 { return z + cc - cb; };\n        return y + ca * 100 + cb * 10 + g(cc);\n    };\n    return f(1)%s;\n}\n", fn, k, calls)
+	case "rich":
+		// several named and anonymous types, methods, string literals, a match and a result: the
+		// tables the back ends emit (type ids, string pool, method sets) all have several entries
+		fmt.Fprintf(&sb, "type P%s struct { .X: i32, .Y: i64 };\ntype Q%s struct { .A: str, .B: P%s };\ntype E%s enum { Red, Green, Blue };\n"+
+			"fn (p: P%s) sum() -> i64 { return (p.X as i64) + p.Y; }\nfn (p: &'P%s) bump() { p.X = p.X + 1; }\nfn (q: Q%s) name() -> str { return q.A; }\n"+
+			"fn r%s(v: i32) -> str ! i32 { if v < 0 { return \"neg-%s\"!; } return v + 1; }\n"+
+			"fn %s() -> i32 {\n    let p := { .X = %d, .Y = 2 } as P%s;\n    let q := { .A = \"alpha-%s\", .B = p } as Q%s;\n    p.bump();\n    let e := E%s::Green;\n    let n: i32 = 0;\n    match e { E%s::Red => { n = 1; } E%s::Green => { n = 2; } _ => { n = 3; } }\n    let s1 := \"beta-%s\";\n    let s2 := \"gamma-%s\";\n    let w := r%s(n) catch 0;\n    let t: struct { .U: i32, .V: i32 } = { .U = w, .V = 4 };\n    return p.X + t.U + (p.sum() as i32)%s;\n}\n",
+			name, name, name, name, name, name, name, name, name, fn, k, name, name, name, name, name, name, name, name, name, calls)
 	case "synb":
 		fmt.Fprintf(&sb, "fn %s() -> i32 {\n    return %d +%s;\n    let q := ) 3;\n}\n", fn, k, calls) // syntax errors on lines after the imports
 	default:
@@ -107,7 +119,7 @@ func (p *pspec) project() *sched.Project {
 	return &sched.Project{ID: p.id, Files: files, Entry: "main.fer"}
 }
 
-var wellFormed = map[string]bool{"plain": true, "lit1": true, "lit2": true, "anon": true}
+var wellFormed = map[string]bool{"plain": true, "lit1": true, "lit2": true, "anon": true, "cap3": true, "rich": true}
 
 func mk(id string, quick bool, mods map[string]modspec) *pspec {
 	p := &pspec{id: id, mods: mods, quick: quick, ctl: true}
@@ -142,6 +154,13 @@ func projects() []*pspec {
 		p.b2 = k == "lit1"
 		ps = append(ps, p)
 	}
+	// modules with more in them (multi-capture closures; several types, methods, strings)
+	for _, pr := range [][2]string{{"plain", "cap3"}, {"cap3", "rich"}, {"rich", "cap3"}} {
+		p := mk(fmt.Sprintf("one(main=%s,a=%s)", pr[0], pr[1]), true, map[string]modspec{"main": ms(pr[0], "a"), "a": ms(pr[1])})
+		p.one = true
+		ps = append(ps, p)
+	}
+	ps = append(ps, mk("fork(a=cap3,b=rich)", true, map[string]modspec{"main": ms("plain", "a", "b"), "a": ms("cap3"), "b": ms("rich")}))
 	// fork: main imports a and b
 	for i, ka := range kinds {
 		for _, kb := range kinds[i:] {
